@@ -38,6 +38,7 @@ def solve(info, **over):
 
 def run(ctx):
     import flowpaths as fp
+    import gen2
     ctx.rule = ("every route-returning class on random small instances with constraints (edge coverage 1, 1/2, 3/4; length coverage "
                 "on DAG classes), ignore sets, error scalings, additional starts/ends, edge and node mode; metamorphic partner "
                 "instances; non-trivial = instance has a constraint, an ignored element or an additional start/end")
@@ -416,4 +417,43 @@ def run(ctx):
         if res[0][0] != res[1][0] or (res[0][0] is True and not same(res[0][1], res[1][1])):
             ctx.report(f"kMinPathErrorCycles: elements_to_ignore_percentile={pct} gives {res[0]} but the equivalent explicit "
                        f"elements_to_ignore list gives {res[1]}", rep)
+    # (9) MANY ignored elements with pairwise different values: whatever is derived from "the flow values" (lower bounds, caps,
+    #     guessed weights) must not see them -- the result equals that of the same instance whose ignored values are all equal
+    for i in range(ctx.budget(50, 1000)):
+        rng = ctx.rng("manyign", i)
+        name = ["MinFlowDecomp", "kFlowDecomp", "MinFlowDecomp", "kLeastAbsErrors"][i % 4]
+        G, paths_, ws_, is_int_ = gen2.rand_flow_dag(rng, nmax=rng.choice([6, 7, 8]), npaths=(1, 2), intw=True)
+        G.graph["id"] = "graph 1"
+        kw = {"flow_attr": "flow", "weight_type": int, "solver_options": {"threads": zoo.THREADS}}
+        if name != "MinFlowDecomp":
+            kw["k"] = max(1, len(set(map(tuple, paths_))))
+        info = {"class": name, "G": G, "kwargs": kw, "node": False, "routes": paths_, "weights": ws_, "is_int": True, "ignore": [], "cons": [], "starts": [], "ends": []}
+        order = list(nx.topological_sort(G)); pos = {v: j for j, v in enumerate(order)}
+        cand = [(u, v) for u in order for v in order if pos[u] < pos[v] and not G.has_edge(u, v)]
+        rng.shuffle(cand)
+        want = rng.randint(3, 6)
+        extra = cand[:want]
+        j_ = 0
+        while len(extra) < want and len(order) >= 2:           # detours through fresh nodes: two more ignored edges each
+            a_, b_ = sorted(rng.sample(range(len(order)), 2)); z_ = f"z{j_}"; j_ += 1
+            extra += [(order[a_], z_), (z_, order[b_])]
+        res = []
+        for variant in ("distinct", "equal"):
+            G2 = copy.deepcopy(G)
+            for j, e in enumerate(extra):
+                G2.add_edge(*e, flow=(101 + 7 * j) if variant == "distinct" else 1)
+            kw2 = dict(kw, elements_to_ignore=list(extra))
+            if rng.random() < 0.3 and name == "MinFlowDecomp":
+                kw2["optimization_options"] = {"optimize_with_greedy": False}
+            inf = dict(info); inf["G"] = G2; inf["kwargs"] = kw2
+            try:
+                mv = zoo.construct(inf); mv.solve(); res.append((mv.is_solved(), objective(mv, name) if mv.is_solved() else None))
+            except ValueError:
+                res.append(("ValueError", None))
+            except Exception as e:
+                res.append((f"raise:{type(e).__name__}", None))
+        rep = {"class": name, "instance": zoo.describe(info), "ignored_extra_edges": extra}
+        ctx.case(["manyign", rep["instance"], extra], nontrivial=True); ctx.count("E2_many_ignored_distinct_values", "cases")
+        if res[0][0] != res[1][0] or (res[0][0] is True and not same(res[0][1], res[1][1])):
+            ctx.report(f"{name}: {len(extra)} ignored edges with pairwise different values give {res[0]}, the same edges with equal values give {res[1]}", rep)
     gencheck.run_generated(ctx, ["max_occurrence"])      # generated-model tie of graphutils.max_occurrence (coq/gen_proofs)
